@@ -62,6 +62,15 @@ async def execute(net, hyg, plan):
         if bd:
             rng = random.Random(plan.get("seed", 0))
             w.ctl.delay = lambda op, path, n: rng.choice(bd)
+        if plan.get("init_fails"):
+            # the back end cannot be set up for the next session(s): its constructor raises
+            left = {"n": plan["init_fails"]}
+
+            def fail_init(n_instances):
+                if left["n"] > 0:
+                    left["n"] -= 1
+                    return RuntimeError("back end unavailable for this session")
+            w.ctl.fail_init = fail_init
         if plan.get("slow_close"):
             w.ctl.delay = lambda op, path, n: plan["slow_close"] if op == "close" else 0
         if plan.get("inline"):
@@ -317,6 +326,11 @@ def gen_cases(tier, seed):
             for action in ("rst", "server-close"):
                 cases.append({"kind": "enum", "action": action, "stride": 3 if tier == "quick" else 1, "phase": seed % 3,
                               "plan": {"scripts": [name], "seed": seed, "server_kwargs": kw}})
+    # a back end whose constructor raises for the first session(s): that session ends by this error, nothing of it stays
+    for name in ("login_quit", "retr_pasv"):
+        for n_fail in (1, 2):
+            cases.append({"kind": "single", "plan": {"scripts": [name, "walk", "walk"][:n_fail + 1], "prefixes": ["", "/p1", "/p2"][:n_fail + 1], "seed": seed,
+                                                     "init_fails": n_fail, "offsets": [0, 0.01, 0.02][:n_fail + 1], "late_close": 1.0}})
     # the second life of a Server object (start, close, start): everything holds as in the first
     for name in ("retr_pasv", "stor_pasv", "walk") if tier == "quick" else ("retr_pasv", "stor_pasv", "walk", "mlsd", "two_transfers", "pasv_twice"):
         for action in ("server-close", "rst"):
